@@ -42,7 +42,7 @@ fn get_decoded_regions_squeezed(
             ));
         }
 
-        let ranges = izip!(
+        let mut ranges = izip!(
             decoded_region.start().iter(),
             decoded_region.shape().iter(),
             shape.iter()
@@ -50,6 +50,15 @@ fn get_decoded_regions_squeezed(
         .filter(|(_, _, &shape)| shape.get() > 1)
         .map(|(rstart, rshape, _)| (*rstart..rstart + rshape))
         .collect::<Vec<_>>();
+        // The encoded shape is [1] if every dimension is squeezed
+        if ranges.is_empty() {
+            ranges.push(0..1);
+        }
+        // An empty region must stay empty even if its zero-sized dimension is squeezed
+        if decoded_region.is_empty() {
+            decoded_regions_squeezed.push(ArraySubset::new_empty(ranges.len()));
+            continue;
+        }
 
         let decoded_region_squeeze = ArraySubset::new_with_ranges(&ranges);
         decoded_regions_squeezed.push(decoded_region_squeeze);
